@@ -267,9 +267,11 @@ def vincinv(lat1, lon1, lat2, lon2, ellipsoid=grs80):
         azimuth1to2 = azimuth1to2 + 360
 
     # Calculate the azimuth from point 2 to point 1
-    azimuth2to1 = degrees(atan2(cos(u1)*sin(lon),
-                                (-sin(u1)*cos(u2)
-                                 + cos(u1)*sin(u2)*cos(lon)))) + 180
+    # (azimuth 1 to 2 plus the convergence of the meridians on the auxiliary
+    # sphere by Napier's analogy: no cancellation on short lines)
+    azimuth2to1 = (azimuth1to2 + 180 + degrees(
+        2*atan2(sin((u1 + u2)/2)*sin(lon/2),
+                cos((u2 - u1)/2)*cos(lon/2)))) % 360
 
     # Meridian Critical Case Tests
     #if lon1 == lon2 and lat1 > lat2:
